@@ -21,6 +21,8 @@ type Sel struct {
 	Scope    []string // package scope handed to the rule (nil = rule default)
 	Rules    []string // obligation rule ids to keep (prefix match); nil = all
 	Prefixes []string // construct prefixes to keep; nil = all
+	Contains []string // if set, the construct must contain one of these
+	Exclude  []string // constructs containing one of these are dropped
 }
 
 // Property is the static check of one property.
@@ -100,6 +102,22 @@ func keep(s Sel, o *rules.Obligation) bool {
 			}
 		}
 		if !ok {
+			return false
+		}
+	}
+	if s.Contains != nil {
+		ok := false
+		for _, p := range s.Contains {
+			if strings.Contains(o.Construct, p) {
+				ok = true
+			}
+		}
+		if !ok {
+			return false
+		}
+	}
+	for _, p := range s.Exclude {
+		if strings.Contains(o.Construct, p) {
 			return false
 		}
 	}
